@@ -8,6 +8,7 @@ results, by deciding the equality of the two if-chains (`ifchain`: split every c
 leaf with `omega`) or Boolean formulas (`boolprop`), not by syntactic identity, so that a harmless
 rewrite of the source keeps them true.
 -/
+set_option linter.unusedSimpArgs false
 namespace U.CodeTies
 
 /-- decide an equality between two if-chains over linear integer conditions -/
@@ -22,5 +23,16 @@ macro "boolprop" : tactic =>
              simp only [Bool.and_eq_true, Bool.or_eq_true, Bool.not_eq_true', beq_iff_eq, bne_iff_ne, ne_eq,
                decide_eq_true_eq, beq_eq_false_iff_ne]
              omega))
+
+/-- an if-chain of Booleans, as a proposition: split every condition, decide each leaf arithmetically -/
+macro "ifprop" : tactic =>
+  `(tactic| (try simp only [decide_eq_true_eq, Bool.and_eq_true, Bool.or_eq_true, Bool.not_eq_true', beq_iff_eq, bne_iff_ne, ne_eq,
+               beq_eq_false_iff_ne, decide_eq_false_iff_not]
+             try (repeat' split)
+             all_goals first
+               | omega
+               | (simp only [Bool.false_eq_true, false_iff, true_iff, iff_false, iff_true, decide_eq_true_eq, Bool.and_eq_true,
+                    Bool.or_eq_true, beq_iff_eq, bne_iff_ne, ne_eq, Bool.not_eq_true', beq_eq_false_iff_ne, decide_eq_false_iff_not]; omega)
+               | (simp_all; done) | (simp_all; omega)))
 
 end U.CodeTies
